@@ -19,6 +19,7 @@ func configs(quick bool) []Cfg {
 	staleSig := []string{"propose:max", "dkgfast", "stale", "sig", "block", "jumpexec"}
 	frac := []string{"propose:frac", "force:frac", "probe", "dkgfast", "sig", "block", "jumpfrac"}
 	overlap := []string{"propose:max", "dkgfast", "sig", "req", "act", "block"}
+	gsize := []string{"force:min", "propose:max", "dkgfast", "sig", "maxgs", "probe", "block", "jumpexec"}
 	if quick {
 		return []Cfg{
 			// A: the whole life cycle of one proposal at round granularity, all timings around the exec time
@@ -54,6 +55,10 @@ func configs(quick bool) []Cfg {
 			// group whose copy nobody signs; (de)activations of one membership must not touch the other
 			{Name: "overlapping-membership", CurN: 3, CurT: 2, IncN: 2, IncT: 2, SameAccounts: true, SigningPeriod: 1, MaxSigningAttempt: 1, CreationPeriod: 8,
 				InitDE: 4, MaxProposals: 1, MaxReq: 2, MaxTransitionSec: 90, FeePerSigner: 5, Events: overlap, Depth: 9},
+			// K: governance lowers tss max_group_size (a creation-time limit) below the size of existing groups and
+			// restores it, before / while a forced or signed transition between 3-member groups runs and executes
+			{Name: "max-group-size-lowered", CurN: 3, CurT: 2, IncN: 3, IncT: 2, Spare: true, SigningPeriod: 4, MaxSigningAttempt: 1, CreationPeriod: 8,
+				InitDE: 3, MaxProposals: 1, MaxReq: 0, MaxTransitionSec: 30, FeePerSigner: 5, Events: gsize, Depth: 6},
 		}
 	}
 	lifeMsg := []string{"propose:max", "probe", "dkg", "dkgmsg", "spoil", "sigany", "block", "jumpexec"}
@@ -89,6 +94,8 @@ func configs(quick bool) []Cfg {
 			InitDE: 3, MaxProposals: 2, MaxReq: 1, MaxTransitionSec: 20, FeePerSigner: 7, Events: append(append([]string{}, frac...), "req", "jump"), Depth: 8},
 		{Name: "overlapping-membership", CurN: 3, CurT: 2, IncN: 3, IncT: 2, SameAccounts: true, SigningPeriod: 2, MaxSigningAttempt: 2, CreationPeriod: 8,
 			InitDE: 6, MaxProposals: 1, MaxReq: 2, MaxTransitionSec: 90, FeePerSigner: 5, Events: append(append([]string{}, overlap...), "sigany", "reqgov", "jumpexec"), Depth: 9},
+		{Name: "max-group-size-lowered", CurN: 3, CurT: 2, IncN: 3, IncT: 2, Spare: true, SigningPeriod: 4, MaxSigningAttempt: 1, CreationPeriod: 8,
+			InitDE: 3, MaxProposals: 2, MaxReq: 1, MaxTransitionSec: 30, FeePerSigner: 5, Events: append(append([]string{}, gsize...), "req", "spoil", "dkg"), Depth: 9},
 	}
 }
 
